@@ -100,6 +100,22 @@ func protoContent(flag string) string {
 		return protoHead + protoTail
 	case "g1":
 		return protoHead + decl + protoTail
+	// the canonical spelling at other legal positions of a .proto file (file options may stand
+	// anywhere at top level), and with other line shapes - all in-domain
+	case "g1:trailer":
+		return protoHead + protoTail + decl
+	case "g1:middle":
+		return protoHead + protoTail + "enum E { E0 = 0; }\n" + decl + "message N { int32 b = 1; }\n"
+	case "g1:aftercomment":
+		return protoHead + "/* a licence header\n * of several lines\n */\n// and a line comment\n" + decl + protoTail
+	case "g1:indent":
+		return protoHead + "\t  " + decl + protoTail
+	case "g1:crlf":
+		return strings.ReplaceAll(protoHead+decl+protoTail, "\n", "\r\n")
+	case "g1:noeol":
+		return protoHead + protoTail + strings.TrimSuffix(decl, "\n")
+	case "g1:first":
+		return decl + protoHead + protoTail
 	case "g1:nospace": // declares it, the line scan does not see it
 		return protoHead + "option go_package=\"example.com/declared/pkg\";\n" + protoTail
 	case "g1:twospace":
